@@ -228,7 +228,9 @@ let () =
             let s = parse_state c in
             let p = prepare s in
             let st = p.p_st in
-            let raw = { p with p_st = { st with c_disks = s.c_disks } } in
+            (* ... and the disks mapped as that older writer saw them: by what they hold before the clean-up *)
+            let idx = assign_idx s.c_disks p.p_blockmax s.c_maps N0 (List.map (fun _ -> None) s.c_disks) in
+            let raw = { p with p_st = { st with c_disks = s.c_disks }; p_idx = idx } in
             print_endline (hex_of_bytes (add_crc (write_body now raw)))
           | "normalise" ->
             let now = num c in
